@@ -170,6 +170,8 @@ class Group(System):
         Cache for the system graph.
     _key_owner : dict
         The owning rank keyed by absolute jacobian key.
+    _approx_relevance : Relevance or None
+        The relevance that selected the semi-total approximations of this group.
     """
 
     def __init__(self, **kwargs):
@@ -204,6 +206,7 @@ class Group(System):
         self._is_explicit = None
         self._sys_graph_cache = None
         self._key_owner = None
+        self._approx_relevance = None
 
         # TODO: we cannot set the solvers with property setters at the moment
         # because our lint check thinks that we are defining new attributes
@@ -2858,8 +2861,18 @@ class Group(System):
                     # for some tests that just call run_linearize directly without calling
                     # compute_totals.
                     self._setup_approx_derivs()
+                    self._approx_relevance = self._relevance
             else:
                 self._setup_approx_coloring()
+        elif self._approx_relevance is not None and self._approx_relevance is not self._relevance:
+            # the inputs that a semi-total approximation perturbs were selected by the relevance
+            # of an earlier derivative computation; select them again for the current one.
+            if self.pathname and self._approx_schemes:
+                self._setup_approx_derivs()
+                # these may predate the approximations added just now
+                self._jacobian = None
+                self._clear_jac_caches()
+            self._approx_relevance = self._relevance
 
     def approx_totals(self, method='fd', step=None, form=None, step_calc=None):
         """
